@@ -228,7 +228,8 @@ PATTERNS2 = {  # rank-2 prefitting lattice kernels (vertex order 00,01,10,11)
 
 def crystals_items(tier, seed):
   out = []
-  for nf, rank, nl in ((3, 2, 2), (3, 2, 3), (4, 2, 2), (4, 2, 3), (4, 3, 2), (5, 2, 3), (5, 3, 2)):
+  for nf, rank, nl in ((3, 2, 2), (3, 2, 3), (4, 2, 2), (4, 2, 3), (4, 3, 2), (5, 2, 3), (5, 3, 2),
+                       (4, 3, 3), (5, 3, 3), (5, 3, 4), (6, 3, 4)):
     for s in ((0, 1) if tier == "quick" else (0, 1, 2, 3)):
       out.append(dict(kind="crystals", nf=nf, rank=rank, nl=nl, seed=seed * 4 + s))
   return out
@@ -274,10 +275,29 @@ def crystals_case(item, ctx=None, only=None):
   per = [[p[i] for i in order if i < len(p)][:pcount] for p in per]
   free = int(np.log(budget) / np.log(pcount))
   per = [p if i < free else [p[min(2, len(p) - 1)]] for i, p in enumerate(per)]
-  combos = itertools.product(*per)
+  combos = list(itertools.product(*per))
+  # second family: one DOMINANT feature (every prefitting lattice that contains it is linear in it
+  # with a large slope, all lattices mildly additive in the rest), for every feature and two slopes
+  def dominant(f, slope):
+    out = []
+    for lat, n in zip(pre.lattices, sizes):
+      k = len(lat)
+      idx = np.array(list(itertools.product([0, 1], repeat=k)), dtype=np.float64)
+      vals = 0.1 * idx.sum(axis=1) + 0.05 * idx[:, 0]
+      if f in lat:
+        vals = vals + slope * idx[:, list(lat).index(f)]
+      out.append(("dom-%s-%g" % (f, slope), vals))
+    return out
+  for f in names:
+    for slope in (1.0, 8.0):
+      combos.append(dominant(f, slope))
   if only is not None:
-    combos = [[(nm, PATTERNS2.get(nm) if sizes[i] == 4 else dict(patterns(sizes[i]))[nm])
-               for i, nm in enumerate(only)]]
+    if only and str(only[0]).startswith("dom-"):
+      _, f, slope = only[0].split("-")
+      combos = [dominant(f, float(slope))]
+    else:
+      combos = [[(nm, PATTERNS2.get(nm) if sizes[i] == 4 else dict(patterns(sizes[i]))[nm])
+                 for i, nm in enumerate(only)]]
   for combo in combos:
     for lay, (nm, vals) in zip(lat_layers, combo):
       lay.kernel.assign(np.asarray(vals, dtype=np.float32).reshape(-1, 1))
